@@ -28,6 +28,7 @@ Inductive num :=
 Inductive res :=
 | Ok (v : num)
 | ErrDivZero               (* stop!(Generic => "/: division by zero") *)
+| ErrType                  (* TypeMismatch: e.g. quotient of a non-integer *)
 | Panic (site : string).   (* a Rust panic: overflow check, library panic!, unreachable! *)
 
 Definition bind (r : res) (f : num -> res) : res :=
@@ -307,6 +308,57 @@ Definition denom (x : num) : Z := match x with IntV _ | BigNum _ => 1 | Rat32 _ 
 Definition num_cmp (x y : num) : comparison := (numer x * denom y ?= numer y * denom x).
 Definition num_lt (x y : num) : bool := match num_cmp x y with Lt => true | _ => false end.
 
+
+(* ---------------------------------------------------------------- integer division family
+   truncate_quotient / truncate_remainder / floor_remainder (numbers.rs L444-730): `quotient`,
+   `remainder`, `modulo`.  IntV/IntV uses machine division (the overflowing pair isize::MIN / -1 is
+   special-cased through BigInt), every pair involving a BigNum goes through BigInt. *)
+Definition int_of (v : num) : option Z :=
+  match v with IntV a | BigNum a => Some a | _ => None end.
+
+Definition int_div_op (f : Z -> Z -> Z) (site : string) (x y : num) : res :=
+  match x, y with
+  | IntV l, IntV r =>
+      if r =? 0 then ErrDivZero
+      else if (l =? isize_min) && (r =? -1) then Ok (of_bigint (f l r))
+      else match chk_isize (f l r) with
+           | Some q => Ok (IntV q)
+           | None => Panic site
+           end
+  | _, _ =>
+      match int_of x, int_of y with
+      | Some l, Some r => if r =? 0 then ErrDivZero else Ok (of_bigint (f l r))
+      | _, _ => ErrType
+      end
+  end.
+
+Definition quotient (x y : num) : res := int_div_op Z.quot "isize division overflow" x y.
+Definition remainder (x y : num) : res := int_div_op Z.rem "isize remainder overflow" x y.
+Definition modulo (x y : num) : res := int_div_op Z.modulo "isize mod_floor overflow" x y.
+
+(* gcd (scheme/stdlib.scm L1139-1142): (define (gcd a b) (cond [(= b 0) (abs a)] [else (gcd b (modulo a b))])) *)
+Fixpoint gcd_loop (fuel : nat) (a b : num) : option res :=
+  match fuel with
+  | O => None
+  | S f =>
+    match int_of b with
+    | Some 0 => Some (abs a)
+    | Some _ => match modulo a b with
+                | Ok m => gcd_loop f b m
+                | e => Some e
+                end
+    | None => Some ErrType
+    end
+  end.
+
+(* exact-integer-sqrt (numbers.rs L2050-2076): (values s r) with s = floor(sqrt n), r = n - s*s *)
+Definition exact_integer_sqrt (x : num) : option (num * num) :=
+  match int_of x with
+  | Some n => if n <? 0 then None
+              else let s := Z.sqrt n in Some (of_bigint s, of_bigint (n - s * s))
+  | None => None
+  end.
+
 (* ---------------------------------------------------------------- rendering for the correspondence *)
 Definition zs (z : Z) : string :=
   (* decimal rendering without depending on the (slow) stdlib string-of-Z *)
@@ -334,6 +386,7 @@ Definition render (r : res) : string :=
   match r with
   | Ok v => render_num v
   | ErrDivZero => "E:divzero"
+  | ErrType => "E:TypeMismatch"
   | Panic s => "P:" ++ s
   end%string.
 
